@@ -104,7 +104,12 @@ U_C12V(zz) ==
             C1 |-> Class(DefaultOpts, <<U1("t"), WithDesc(U1("n"), [kind |-> "autolen", of |-> "o"]), OptF("o", DataF("e", SzConst(1)), SzField("t"))>>)], "subsets", 1, FALSE),
      VDecl([C0 |-> Class(DefaultOpts, <<IntF("a", 2, TRUE, "default"), RefF("s", "C1"), RepCountF("r", RefF("e", "C1"), SzConst(1), NoCond, 0)>>),
             C1 |-> Class(DefaultOpts, <<IntF("x", 1, FALSE, "default"), IntF("y", 3, TRUE, "little")>>)], "full", 1, FALSE),
-     V1(<<U1("a"), MvField(DataF("d", SzConst(2)), [kind |-> "at", arg |-> SzField("a"), ref |-> "innermost-pkt"]), U1("z")>>, "full", FALSE)}
+     V1(<<U1("a"), MvField(DataF("d", SzConst(2)), [kind |-> "at", arg |-> SzField("a"), ref |-> "innermost-pkt"]), U1("z")>>, "full", FALSE),
+     \* a self-referential class (an optional reference back to the class itself, through a callable): a failure three levels
+     \* down (the innermost default packet holds an unrepresentable value) is reported with one entry per level
+     VDecl([C0 |-> Class(DefaultOpts, <<U1("t"), WithDflt(U1("v"), 300),
+                                        OptF("o", RefSelF("e", EC(0), <<[key |-> 0, alt |-> RefF("", "C0")]>>, "lambda", IntV(0)), SzField("t"))>>)],
+           "full", 1, FALSE)}
 
 \* -------------------------------------------------------------------- C07 (pack side)
 U_C07V(zz) == {V1(BitFields(ws), "full", TRUE) : ws \in {<<4, 4>>, <<3, 5>>, <<1, 7>>, <<1, 6, 1>>, <<8>>}}
